@@ -150,8 +150,9 @@ fn observe(text: &str, cat: Option<&hulc::bdl::DB>) -> Value {
     }
 }
 
-const REF_KINDS: [&str; 13] = ["SPACE", "LAYERS", "MATERIAL", "GLASS-TYPE", "NAME-FRAME", "GAP", "DAY-SCHEDULE-PD", "WEEK-SCHEDULE-PD", "SCHEDULE-PD",
-    "SPACE-CONDITIONS", "SYSTEM-CONDITIONS", "POLYGON", "FLOOR"];
+const REF_KINDS: [&str; 17] = ["SPACE", "LAYERS", "MATERIAL", "GLASS-TYPE", "NAME-FRAME", "GAP", "DAY-SCHEDULE-PD", "WEEK-SCHEDULE-PD", "SCHEDULE-PD",
+    "SPACE-CONDITIONS", "SYSTEM-CONDITIONS", "POLYGON", "FLOOR", "EXTERIOR-WALL", "INTERIOR-WALL", "ROOF", "UNDERGROUND-WALL"];
+const WALL_KINDS: [&str; 4] = ["EXTERIOR-WALL", "INTERIOR-WALL", "ROOF", "UNDERGROUND-WALL"];
 
 /// header lines of the definitions other blocks refer to by name: (line index, name, type)
 fn definitions(lines: &[&str]) -> Vec<(usize, String, String)> {
@@ -181,6 +182,13 @@ fn mutate(lines: &[&str], def: &(usize, String, String), how: &str) -> Option<St
         "rename" => {
             let mut v: Vec<String> = lines.iter().map(|s| s.to_string()).collect();
             v[*li] = v[*li].replacen(&format!("\"{}\"", name), &format!("\"{}_X\"", name), 1);
+            Some(v.join("\n"))
+        }
+        "retype" => {
+            // a wall block re-typed to a kind the parent tracking still counts as a wall but the parser does not keep:
+            // the windows written under it now hang from a wall that does not exist
+            let mut v: Vec<String> = lines.iter().map(|s| s.to_string()).collect();
+            v[*li] = v[*li].replacen(def.2.as_str(), "UNDERGROUND-FLOOR", 1);
             Some(v.join("\n"))
         }
         "remove" => {
@@ -215,8 +223,13 @@ pub fn run(args: &Args) -> i32 {
         }
         let nm = if thorough { if *is_real { 12 } else { 6 } } else if *is_real { if ti % 3 == (args.seed as usize) % 3 { 3 } else { 0 } } else { 2 };
         for _ in 0..nm {
-            let d = rng.pick(&defs).clone();
-            let how = if rng.chance(1, 2) { "rename" } else { "remove" };
+            // walls are referred to by position (the windows that follow them): half of the mutants aim at a wall that hosts a window
+            let hosts: Vec<&(usize, String, String)> = defs.iter().filter(|d| WALL_KINDS.contains(&d.2.as_str())
+                && lines.get(d.0 + 1..).map_or(false, |rest| rest.iter().take_while(|l| !WALL_KINDS.iter().any(|k| l.trim_end().ends_with(&format!("= {k}"))) && !l.contains("= SPACE") && !l.contains("= FLOOR"))
+                    .any(|l| l.trim_end().ends_with("= WINDOW")))).collect();
+            let d = if !hosts.is_empty() && rng.chance(1, 2) { (*rng.pick(&hosts)).clone() } else { rng.pick(&defs).clone() };
+            let is_wall = WALL_KINDS.contains(&d.2.as_str());
+            let how = if is_wall { *rng.pick(&["remove", "retype", "retype"]) } else if rng.chance(1, 2) { "rename" } else { "remove" };
             if let Some(t2) = mutate(&lines, &d, how) {
                 let obs = observe(&t2, c);
                 // was the definition referenced elsewhere in the text?
